@@ -62,6 +62,7 @@ func (l *lockedBuf) String() string {
 type Pool struct {
 	exe        string
 	confirming bool          // confirmation / replay runs: no shortened watchdog
+	stackMB    int           // Go stack cap of the workers in MiB (0: the screening cap of 16 MiB)
 	Watchdog   time.Duration // per call, for inputs of a few kB
 	PerKiB     time.Duration // ... plus this much per KiB of input
 	mu         sync.Mutex
@@ -82,6 +83,9 @@ func newPool() (*Pool, error) {
 func (p *Pool) start() (*worker, error) {
 	cmd := exec.Command(p.exe)
 	cmd.Env = append(os.Environ(), "C05_WORKER=1", "GOTRACEBACK=all", "GOMAXPROCS=2")
+	if p.stackMB > 0 {
+		cmd.Env = append(cmd.Env, fmt.Sprintf("C05_STACK_MB=%d", p.stackMB))
+	}
 	in, err := cmd.StdinPipe()
 	if err != nil {
 		return nil, err
